@@ -186,7 +186,7 @@ let () =
           | Some s -> hex_of_str s
           | None -> "fuel")
   | "conv" ->
-      (* W TAB REORDER NW (HEX WIDTH)*NW TREE -> ok COUNT:WFC:SIZE DOC<tab>OUTHEX | err | panic SITE | fuel *)
+      (* W TAB REORDER NW (HEX WIDTH)*NW TREE -> ok COUNT:WFC:SIZE:SWFC DOC<tab>OUTHEX | err | panic SITE | fuel *)
       each_line (fun line ->
           let t = toks_of line in
           let w = n_of_int (int_of_string (next t)) in
@@ -203,10 +203,10 @@ let () =
                       reorder_import_items = reo } in
           if erroneous tree then "err"
           else match convert_root swidth cfg tree with
-            | Panic s -> "panic " ^ site_name s
+            | Panic s -> Printf.sprintf "panic %s swfc=%d" (site_name s) (if swfc tree then 1 else 0)
             | Ok (d, cnt) ->
                 (match render w d with
-                 | Some out -> Printf.sprintf "ok %d:%d:%d %s\t%s" (int_of_n cnt) (if wfc tree then 1 else 0) (int_of_nat (tree_size tree)) (doc_to_string d) (hex_of_str (strip out))
+                 | Some out -> Printf.sprintf "ok %d:%d:%d:%d %s\t%s" (int_of_n cnt) (if wfc tree then 1 else 0) (int_of_nat (tree_size tree)) (if swfc tree then 1 else 0) (doc_to_string d) (hex_of_str (strip out))
                  | None -> "fuel"))
   | "range" ->
       (* W TAB A B NW (HEX WIDTH)*NW TREE -> ok RS RE OUTHEX | err | panic SITE | fuel *)
@@ -226,9 +226,9 @@ let () =
           let cfg = { tab_spaces = tab; max_width = w; blank_lines_upper_bound = cfg_default.blank_lines_upper_bound;
                       reorder_import_items = false } in
           match format_range swidth cfg tree a b with
-          | ROk (rs, re, out) -> Printf.sprintf "ok %d %d %s" (int_of_n rs) (int_of_n re) (hex_of_str out)
-          | RErr -> "err"
-          | RPanic s -> "panic " ^ site_name s
+          | ROk (rs, re, out) -> Printf.sprintf "ok %d %d %s swfc=%d" (int_of_n rs) (int_of_n re) (hex_of_str out) (if swfc tree then 1 else 0)
+          | RErr -> Printf.sprintf "err swfc=%d" (if swfc tree then 1 else 0)
+          | RPanic s -> Printf.sprintf "panic %s swfc=%d" (site_name s) (if swfc tree then 1 else 0)
           | RFuel -> "fuel")
   | "sym" ->
       (* K U1 DOC1 RAWHEX1 ... UK DOCK RAWHEXK  (units must include 2 and 3)
